@@ -33,6 +33,15 @@ of `combined_view`.  `_get_max_port_len` is read statically first (initial list,
 running maximum as `if` / conditional expression / `max`); only if its statements have another shape
 (e.g. comprehensions instead of loops) it is called in isolation with a stub machine model on probe
 kernels and must be  width[i] = max(m, max len('%.<d>f' % pressure[i]))  on all of them.
+The `Warnings` entry of `full_analysis_dict` is read the same way: the statements that can influence it
+(backward slice, astutil_G5.backward_slice; private helpers substituted first) are compiled alone as a function
+of (kernel, arch_warning, length_warning, lcd_warning) and run on all combinations with probe kernels; the list must
+be  [arch][length][lcd][unknown-instruction]  for four fixed names, the last one iff the unknown-throughput flag
+occurs in some instruction's flags.  The two warning switches of `inspect` are read STATICALLY as decision trees
+(astutil_G5.ite_value: the value the local has where full_analysis is called, as a tree over the tests of the
+enclosing ifs) and compared with  not args.arch  /  not args.lines and len(kernel) == len(parsed_code) and
+len(kernel) > N  on every truth assignment of the atoms; N is recovered from `>`, `>=`, `<`, `<=` in either
+operand order.
 Nothing is imported from the analysed tree; a helper that is no longer pure (uses
 `self._machine_model`, a non-white-listed builtin, ...) fails loudly.
 
@@ -65,7 +74,24 @@ def _load_helpers():
     return sys.modules["astutil_G3"]
 
 
+def _load_g5():
+    import importlib.util
+
+    if "astutil_G5" not in sys.modules:
+        path = os.path.join(os.path.dirname(os.path.abspath(__file__)), "astutil_G5.py")
+        spec = importlib.util.spec_from_file_location("astutil_G5", path)
+        mod = importlib.util.module_from_spec(spec)
+        sys.modules["astutil_G5"] = mod
+        try:
+            spec.loader.exec_module(mod)
+        except BaseException:
+            del sys.modules["astutil_G5"]
+            raise
+    return sys.modules["astutil_G5"]
+
+
 A = _load_helpers()
+G5 = _load_g5()
 from translate import TranslateError, generator, parse, find_func, txt, HEADER  # noqa: E402
 
 FRONT = "osaca/frontend.py"
@@ -105,9 +131,20 @@ def instr_flags():
 class Fn:
     """one function of the source with its scope and its templates"""
 
-    def __init__(self, base, cls, name):
+    def __init__(self, base, cls, name, inline_private=False):
         self.name = (cls.name + "." if cls is not None else "") + name
         self.node = A.find_method(cls, name) if cls is not None else find_func(base.module, name)
+        if inline_private:
+            # calls of private helpers (underscore names, static methods) are replaced by the helper's
+            # statements: an "extract function" refactoring does not show (astutil_G5.inline_helpers)
+            if cls is not None:
+                res = G5.class_resolver([cls], self.node, only=G5.is_private_helper)
+            else:
+                res = G5.module_resolver(base.module, self.node,
+                                         only=lambda n, f: n.startswith("_") and not n.startswith("__"))
+            new, used = G5.inline_helpers(self.node, res, depth=2)
+            if used:
+                self.node = new
         self.sc = base.at(cls=cls, fn=self.node)
         self.T = A.Templates(self.sc)
         self._roots = None
@@ -698,53 +735,103 @@ def header_report(f, C):
         f.fail("empty label")
 
 
+def _dict_entry(f, node, key):
+    """the expression stored under the constant `key` of a dict display / `dict(...)` call, else None"""
+    node = f.sc.deref(node)[0]
+    if isinstance(node, ast.Dict):
+        for k, v in zip(node.keys, node.values):
+            if k is not None and A.is_const(k, f.sc) and A.const_eval(k, f.sc) == key:
+                return v
+    if isinstance(node, ast.Call) and isinstance(node.func, ast.Name) and node.func.id == "dict":
+        for k in node.keywords:
+            if k.arg == key:
+                return k.value
+        for a in node.args:
+            v = _dict_entry(f, a, key)
+            if v is not None:
+                return v
+    return None
+
+
 def dict_warnings(f, C, flags):
-    holder = None
-    for n in A.walk_in_order(f.node):
-        if isinstance(n, ast.Dict):
-            for k, v in zip(n.keys, n.values):
-                if k is not None and A.is_const(k, f.sc) and A.const_eval(k, f.sc) == "Warnings":
-                    holder = v
-    if not isinstance(holder, ast.Name):
-        f.fail("the list under the key 'Warnings' is not a local")
-    w = holder.id
-    init = f.sc.binds(f.node).get(w, [])
-    if not init or init[0][0] != "assign" or A.is_const(init[0][1], f.sc) is False or A.const_eval(init[0][1], f.sc) != []:
-        f.fail("warning list does not start empty")
-    found = []
-    for st in A.walk_scope(f.node):
-        item = None
-        if isinstance(st, ast.Expr) and isinstance(st.value, ast.Call) and isinstance(st.value.func, ast.Attribute) \
-                and isinstance(st.value.func.value, ast.Name) and st.value.func.value.id == w:
-            c = st.value
-            if c.func.attr == "append" and len(c.args) == 1:
-                item = [f.const(c.args[0], "warning name", str)]
-            elif c.func.attr == "extend" and len(c.args) == 1:
-                item = f.const(c.args[0], "warning names", (list, tuple))
-            else:
-                f.fail("unexpected use of the warning list: .%s" % c.func.attr)
-        elif isinstance(st, ast.AugAssign) and isinstance(st.target, ast.Name) and st.target.id == w:
-            if not isinstance(st.op, ast.Add):
-                f.fail("unexpected update of the warning list")
-            item = f.const(st.value, "warning names", (list, tuple))
-        if item is None:
-            continue
-        if len(item) != 1 or not isinstance(item[0], str):
-            f.fail("one warning name per condition expected")
-        par = f.parents.get(id(st))
-        if not (isinstance(par, ast.If) and st in par.body and not par.orelse and f.parents.get(id(par)) is f.node):
-            f.fail("warning `%s` is not appended under a plain `if`" % item[0])
-        found.append((par.test, item[0]))
-    if len(found) != 4:
-        f.fail("four conditional warnings expected, found %d" % len(found))
-    for (test, _), pname in zip(found[:3], ("arch_warning", "length_warning", "lcd_warning")):
-        if not (isinstance(test, ast.Name) and test.id == pname):
-            f.fail("condition of warning %s is not the parameter `%s`" % (_, pname))
-    kind, lits = A.bool_lits(found[3][0], f.sc)
-    if not (len(lits) == 1 and lits[0].cmp and lits[0].cmp[0] is ast.In
-            and const_flag(f, lits[0].cmp[1], flags) == C["unknownFlag"]):
-        f.fail("condition of the fourth warning is not `<unknown flag> in <flags>`")
-    C["dictWarnings"] = [name for _, name in found]
+    """`full_analysis_dict`: the list under "Warnings" as a FUNCTION of the three warning parameters and the
+    kernel's flags.  The statements that can influence that list (backward slice, astutil_G5) are compiled
+    alone and run on every combination of the parameters with probe kernels; the result must be
+        [arch name if arch_warning] + [length name if length_warning] + [lcd name if lcd_warning]
+        + [unknown name if <unknown flag> in some instruction's flags]
+    for four fixed names.  How the list is built (if/append chain, filtering comprehension over a table,
+    `+=`, conditional expressions, a dict built incrementally) does not matter; a list that depends on anything
+    else (the graph, the machine model) cannot be run in isolation and fails loudly."""
+    top = G5.body_without_docstring(f.node)
+    # the expression stored under "Warnings" and the statements before it
+    target = None
+    for i, st in enumerate(top):
+        if isinstance(st, ast.Return) and st.value is not None:
+            v = _dict_entry(f, st.value, "Warnings")
+            if v is not None:
+                target = (v, top[:i])
+                # a dict bound to a local first: the entry is evaluated where the dict is built
+                if isinstance(st.value, ast.Name):
+                    for j, s2 in enumerate(top[:i]):
+                        if isinstance(s2, ast.Assign) and any(isinstance(t, ast.Name) and t.id == st.value.id for t in s2.targets):
+                            target = (v, top[:j])
+        elif isinstance(st, ast.Assign) and len(st.targets) == 1 and isinstance(st.targets[0], ast.Subscript) \
+                and isinstance(st.targets[0].value, ast.Name) and A.is_const(st.targets[0].slice, f.sc) \
+                and A.const_eval(st.targets[0].slice, f.sc) == "Warnings":
+            if target is not None:
+                f.fail("the key 'Warnings' is stored twice")
+            target = (st.value, top[:i])
+    if target is None:
+        f.fail("the entry 'Warnings' of the returned dict not found at the top level of the function")
+    expr, before = target
+    params = [a.arg for a in f.node.args.args]
+    need = ["kernel", "arch_warning", "length_warning", "lcd_warning"]
+    if any(p not in params for p in need):
+        f.fail("parameters %r expected" % need)
+    sl, relevant = G5.backward_slice(before, {n.id for n in ast.walk(expr) if isinstance(n, ast.Name)})
+    import copy as _copy
+    body = [_copy.deepcopy(s) for s in sl] + [ast.Return(value=_copy.deepcopy(expr))]
+    fn = _copy.deepcopy(f.node)
+    fn.name, fn.body, fn.decorator_list, fn.returns = "__warnings__", body, [], None
+    ns = _Flags()
+    ns.__dict__.update(flags)
+    call = A.sandbox_function(fn, f.sc, {"INSTR_FLAGS": ns})
+    stub = A.Stub()
+    extra = {p: None for p in params[1:] if p not in need}
+
+    class _Form:
+        def __init__(self, fl):
+            self.flags = list(fl)
+
+    def run(arch, length, lcd, kernel_flags):
+        kw = dict(extra)
+        kw.update(kernel=[_Form(x) for x in kernel_flags], arch_warning=arch, length_warning=length, lcd_warning=lcd)
+        r = A.call_pure("%s (statements that build the warning list)" % f.name, call, stub, **kw)
+        if not isinstance(r, list) or not all(isinstance(x, str) for x in r):
+            f.fail("the warning list is not a list of names: %r" % (r,))
+        return r
+
+    unk = C["unknownFlag"]
+    others = [v for v in dict.fromkeys(flags.values()) if v != unk]
+    plain = [[], [others[0]] if others else []]
+    if run(False, False, False, plain) != []:
+        f.fail("warning list is not empty without any warning")
+    singles = [run(True, False, False, plain), run(False, True, False, plain), run(False, False, True, plain),
+               run(False, False, False, [[], [unk]])]
+    if any(len(x) != 1 for x in singles) or len({x[0] for x in singles}) != 4:
+        f.fail("one distinct warning name per condition expected, got %r" % singles)
+    names = [x[0] for x in singles]
+    kernels = [[], [[]], plain, [[unk]], [[], [unk]], [[unk], []], [others, others], [others + [unk]], [[unk, unk]]]
+    for arch in (False, True):
+        for length in (False, True):
+            for lcd in (False, True):
+                for k in kernels:
+                    want = [n for n, on in zip(names, (arch, length, lcd, any(unk in fl for fl in k))) if on]
+                    got = run(arch, length, lcd, k)
+                    if got != want:
+                        f.fail("warning list for arch=%s length=%s lcd=%s flags=%r is %r, the model has %r"
+                               % (arch, length, lcd, k, got, want))
+    C["dictWarnings"] = names
 
 
 # --------------------------------------------------------------------------- osaca.py
@@ -776,89 +863,14 @@ def default_archs(tm, C):
 
 
 def inspect_flags(tm, C):
-    f = Fn(A.Scope(tm), None, "inspect")
+    f = Fn(A.Scope(tm), None, "inspect", inline_private=True)
     sc = f.sc
 
     def is_args(node, attr):
         return (isinstance(node, ast.Attribute) and node.attr == attr and isinstance(node.value, ast.Name)
                 and node.value.id == "args")
 
-    # names of the two flags: what full_analysis gets as arch_warning= / length_warning=
-    names = {}
-    for c in f.calls("full_analysis"):
-        for k in c.keywords:
-            if k.arg in ("arch_warning", "length_warning"):
-                if not isinstance(k.value, ast.Name):
-                    f.fail("%s= is not given a local" % k.arg)
-                names[k.arg] = k.value.id
-    if set(names) != {"arch_warning", "length_warning"}:
-        f.fail("full_analysis(arch_warning=..., length_warning=...) not found")
-
-    def assignments(var):
-        """[(condition path, value as (kind, payload))]: every assignment to var with the tests of the
-        enclosing `if`s; `if T: v = True else: v = False` counts as one assignment of T"""
-        out = []
-        consumed = set()
-        for n in A.walk_in_order(f.node):
-            if isinstance(n, ast.If) and len(n.body) == 1 and len(n.orelse) == 1:
-                a, b = n.body[0], n.orelse[0]
-                if all(isinstance(x, ast.Assign) and len(x.targets) == 1 and isinstance(x.targets[0], ast.Name)
-                       and x.targets[0].id == var for x in (a, b)):
-                    try:
-                        va, vb = A.const_eval(a.value, sc), A.const_eval(b.value, sc)
-                    except A.NotConst:
-                        continue
-                    if va is True and vb is False:
-                        out.append((n, ("test", n.test, False)))
-                        consumed.update((id(a), id(b)))
-                    elif va is False and vb is True:
-                        out.append((n, ("test", n.test, True)))
-                        consumed.update((id(a), id(b)))
-            if isinstance(n, ast.Assign) and id(n) not in consumed and len(n.targets) == 1 \
-                    and isinstance(n.targets[0], ast.Name) and n.targets[0].id == var:
-                try:
-                    v = A.const_eval(n.value, sc)
-                    out.append((n, ("const", v, None)))
-                except A.NotConst:
-                    out.append((n, ("test", n.value, False)))
-            elif isinstance(n, (ast.AugAssign, ast.AnnAssign)) and isinstance(n.target, ast.Name) and n.target.id == var:
-                f.fail("unexpected assignment to %s" % var)
-        return out
-
-    # ---- arch warning: not args.arch
-    asg = assignments(names["arch_warning"])
-    if len(asg) != 1 or asg[0][1][0] != "test":
-        f.fail("print_arch_warning is not `False if args.arch else True`")
-    kind, lits = A.bool_lits(asg[0][1][1], sc, negate=asg[0][1][2])
-    if not (len(lits) == 1 and not lits[0].cmp and not lits[0].pos and is_args(lits[0].expr, "arch")):
-        f.fail("print_arch_warning is not `False if args.arch else True`")
-
-    # ---- length warning: off under args.lines, else len(kernel) == len(parsed_code) and len(kernel) > N
-    asg = assignments(names["length_warning"])
-    tests = [(n, v) for n, v in asg if v[0] == "test"]
-    offs = [(n, v) for n, v in asg if v[0] == "const"]
-    if len(tests) != 1 or len(offs) != 1 or offs[0][1][1] is not False:
-        f.fail("print_length_warning: expected `= False` under --lines and one computed assignment")
-
-    def lines_branch(node):
-        """True / False: node lies in the branch of an `if` on args.lines where args.lines is truthy / falsy"""
-        child, p = node, f.parents.get(id(node))
-        while p is not None:
-            if isinstance(p, ast.If):
-                kind, lits = A.bool_lits(p.test, sc)
-                if len(lits) == 1 and not lits[0].cmp and is_args(lits[0].expr, "lines"):
-                    in_body = any(child is s for s in p.body)
-                    in_else = any(child is s for s in p.orelse)
-                    if in_body or in_else:
-                        return lits[0].pos == in_body
-            child, p = p, f.parents.get(id(p))
-        return None
-
-    if lines_branch(offs[0][0]) is not True:
-        f.fail("`print_length_warning = False` under `if args.lines` not found")
-    if lines_branch(tests[0][0]) is not False:
-        f.fail("the length warning is not computed in the branch without --lines")
-    # kernel / parsed code: kernel = reduce_to_section(parsed_code, ...)
+    # kernel / parsed code: kernel = reduce_to_section(parsed_code, isa)
     red = [n for n in A.walk_in_order(f.node) if isinstance(n, ast.Call) and isinstance(n.func, ast.Name)
            and n.func.id == "reduce_to_section"]
     if len(red) != 1 or not red[0].args or not isinstance(red[0].args[0], ast.Name) \
@@ -874,29 +886,93 @@ def inspect_flags(tm, C):
             return d.args[0].id
         return None
 
-    kind, lits = A.bool_lits(tests[0][1][1], sc, negate=tests[0][1][2])
-    if kind != "and" or len(lits) != 2 or not all(l.cmp for l in lits):
-        f.fail("length-warning test is not `A and B`")
-    thr = None
-    same = False
-    for l in lits:
-        op, a, b = A.norm_compare(l.cmp)
-        if op is ast.Eq and {len_of(a), len_of(b)} == {kname, pname}:
-            same = True
-        elif op in (ast.Gt, ast.GtE) and len_of(a) == kname:
-            t = A.const_or_fail(b, sc, "inspect: length threshold", int)
-            thr = t if op is ast.Gt else t - 1
-        elif op in (ast.Gt, ast.GtE):
-            f.fail("length-warning test lacks len(kernel) > N")
-    if not same:
-        f.fail("length-warning test lacks len(kernel) == len(parsed_code)")
-    if thr is None or isinstance(thr, bool):
-        f.fail("length-warning threshold not found")
-    C["lengthThreshold"] = thr
+    # ---- the two flags as DECISION TREES over the tests of the enclosing ifs (astutil_G5.ite_value): the value
+    # the local has where full_analysis is called.  `x = True if T else False`, `if T: x = True else: x = False`,
+    # `x = False; if T: x = True`, `x = T`, `x = not (not T)`, nested ifs instead of `and` are the same function.
+    body = G5.body_without_docstring(f.node)
+
+    def tree_of(arg, call):
+        if not isinstance(arg, ast.Name):
+            return ("leaf", arg)
+        stop = call
+        while id(stop) in f.parents and f.parents[id(stop)] is not f.node:
+            stop = f.parents[id(stop)]
+        return G5.ite_value(body, arg.id, stop=stop)
+
+    calls = [c for c in f.calls("full_analysis") if any(k.arg in ("arch_warning", "length_warning") for k in c.keywords)]
+    if len(calls) != 1:
+        f.fail("full_analysis(arch_warning=..., length_warning=...) not found")
+    kws = {k.arg: k.value for k in calls[0].keywords}
+    thresholds = set()
+
+    def atom(world):
+        def decide(node):
+            d, _ = sc.deref(node) if isinstance(node, ast.Name) else (node, None)
+            if d is not node and not isinstance(d, ast.Constant):
+                return G5.bool_eval(d, decide)       # a hoisted test
+            if isinstance(node, ast.Name) and d is not node:
+                return bool(d.value)
+            if is_args(node, "lines"):
+                return world["lines"]
+            if is_args(node, "arch"):
+                return world["arch"]
+            if isinstance(node, ast.Compare) and len(node.ops) == 1:
+                op, a, b = type(node.ops[0]), node.left, node.comparators[0]
+                if op in (ast.Eq, ast.NotEq) and {len_of(a), len_of(b)} == {kname, pname}:
+                    return world["same"] == (op is ast.Eq)
+                if op in (ast.Gt, ast.GtE, ast.Lt, ast.LtE):
+                    if len_of(b) == kname and len_of(a) != kname:
+                        a, b, op = b, a, {ast.Gt: ast.Lt, ast.Lt: ast.Gt, ast.GtE: ast.LtE, ast.LtE: ast.GtE}[op]
+                    if len_of(a) == kname:
+                        t = A.const_or_fail(b, sc, "inspect: length threshold", int)
+                        if isinstance(t, bool):
+                            f.fail("length threshold is not a number")
+                        # as `len(kernel) > thr`
+                        thr, pos = {ast.Gt: (t, True), ast.GtE: (t - 1, True), ast.LtE: (t, False), ast.Lt: (t - 1, False)}[op]
+                        thresholds.add(thr)
+                        return world["long"] == pos
+            return None
+        return decide
+
+    def value(tree, world, what):
+        leaf = G5.eval_tree(tree, lambda test: G5.bool_eval(test, atom(world)))
+        if leaf[0] != "leaf":
+            f.fail("%s has no value on the path %r" % (what, world))
+        return G5.bool_eval(leaf[1], atom(world))
+
+    import itertools
+    if set(kws) < {"arch_warning", "length_warning"}:
+        f.fail("full_analysis(arch_warning=..., length_warning=...) not found")
+    try:
+        t_arch = tree_of(kws["arch_warning"], calls[0])
+        for arch in (False, True):
+            if value(t_arch, {"arch": arch, "lines": False, "same": False, "long": False}, "print_arch_warning") != (not arch):
+                f.fail("print_arch_warning is not `False if args.arch else True`")
+    except TranslateError as ex:
+        if "print_arch_warning is not" in str(ex):
+            raise
+        f.fail("print_arch_warning is not `False if args.arch else True` (%s)" % ex)
+    try:
+        t_len = tree_of(kws["length_warning"], calls[0])
+        for lines, same, long_ in itertools.product((False, True), repeat=3):
+            for arch in (False, True):
+                w = {"arch": arch, "lines": lines, "same": same, "long": long_}
+                if value(t_len, w, "print_length_warning") != ((not lines) and same and long_):
+                    f.fail("print_length_warning is not `not args.lines and len(kernel) == len(parsed_code) and "
+                           "len(kernel) > N` (differs for %r)" % w)
+    except TranslateError as ex:
+        if "print_length_warning is not" in str(ex):
+            raise
+        f.fail("print_length_warning: expected False under --lines and `len(kernel) == len(parsed_code) and "
+               "len(kernel) > N` otherwise (%s)" % ex)
+    if len(thresholds) != 1:
+        f.fail("length-warning threshold not found (or several: %r)" % sorted(thresholds))
+    C["lengthThreshold"] = thresholds.pop()
 
 
 # --------------------------------------------------------------------------- the generator
-@generator("ReportConsts", [FRONT, MAIN, ISA])
+@generator("ReportConsts", [FRONT, MAIN, ISA, "../verif-self:tools/gen/reportconsts.py",
+                            "../verif-self:tools/gen/astutil_G3.py", "../verif-self:tools/gen/astutil_G5.py"])
 def gen_reportconsts():
     tf = parse(FRONT)
     flags = instr_flags()
@@ -919,7 +995,7 @@ def gen_reportconsts():
     symbol_map(base, cls, flags, C, flag_fn)
     lcd_list(Fn(base, cls, "loopcarried_dependencies"), C)
     header_report(Fn(base, cls, "_header_report"), C)
-    dict_warnings(Fn(base, cls, "full_analysis_dict"), C, flags)
+    dict_warnings(Fn(base, cls, "full_analysis_dict", inline_private=True), C, flags)
 
     tm = parse(MAIN)
     default_archs(tm, C)
